@@ -1,5 +1,5 @@
 """C14 — the overhang filter prints layer by layer in the requested direction."""
-import os, json, glob, itertools, math
+import os, json, glob, itertools, math, time
 from fractions import Fraction
 import numpy as np
 import vlib
@@ -250,12 +250,19 @@ def run(ctx):
                 elif mode < 0.8:
                     xs = [Fraction(rng.choice([0, 1])) for _ in range(nel)]
                 else:
-                    xs = [Fraction(rng.random()) for _ in range(nel)]
+                    # full 53-bit floats only where the exact rationals stay small (degree^(layers-1) growth)
+                    layers = (a, b, max(c, 1))[ax]
+                    if layers <= 2:
+                        xs = [Fraction(rng.random()) for _ in range(nel)]
+                    else:
+                        xs = [Fraction(rng.randrange(0, 1025), 1024) for _ in range(nel)]
                 ns_given = nsamp if (dim == 3 or rng.random() < 0.5) else None
                 sweep_case(ctx, pym, add, (a, b, c), direction, ns_given, p, k, eps, xs, tag='sweep')
 
     ctx.exhaustive = True   # the finite string set of the property statement is enumerated completely (both dimensions)
+    t_cases = time.time()
     failing, err = vlib.run_cases(ctx, 'c14', HEADER, checks, chunk=150)
+    ctx.extra['phase_seconds'] = dict(generate=round(t_cases - ctx.t0, 1), coq_cases=round(time.time() - t_cases, 1))
     ctx.obligation('correspondence:case files evaluated', 'correspondence', not err, err)
     if err:
         ctx.violation('correspondence', 'OverhangFilter', 'case files compile', 'harness', dict(error=err[-3000:]),
@@ -269,11 +276,15 @@ def run(ctx):
                       note='Coq model and implementation differ')
 
     # ---- (c) set_parameters (and one smooth-min/max step with the default parameters) through Interval goals
+    t_int = time.time()
     ok_r = interval_goals(ctx, pym)
+    ctx.extra['phase_seconds']['interval'] = round(time.time() - t_int, 1)
     broken = bool(failing) or bool(err) or not gen_ok or not ok_r
 
     # ---- implementation-side property oracle
+    t_or = time.time()
     oracle(ctx, pym, more=(not ctx.quick()) or broken)
+    ctx.extra['phase_seconds']['oracle'] = round(time.time() - t_or, 1)
 
 
 def sweep_case(ctx, pym, add, grid, direction, ns, p, k, eps, xs, tag):
